@@ -964,6 +964,10 @@ func (ke *KindEngine) evalLoad(u *ssa.UnOp) *AV {
 			}
 			return nil
 		}
+		// a variable that closures assign as well: what they store is not followed
+		if closureWrites(p) {
+			return nil
+		}
 		var out *AV
 		for _, ref := range *p.Referrers() {
 			if st, ok := ref.(*ssa.Store); ok && st.Addr == p {
